@@ -4,8 +4,9 @@
   (assembly/build_assembly.py) as translated by `harness/translate_imp.py` into `Gen.Imp`.  Helper lemmas: Proofs/ImpLeftover.lean.
 
   Conversions (Proofs/ImpLeftover.lean): the model keeps the predecessor as `(Fragment, List Gap)`; the source returns the row
-  objects, `predToRows p = (Row.frag p.1, p.2.map Row.gap)`, and `gaps_before_leftover` unpacks them as
-  `predToSrc p = (p.1, p.2.map Row.gap)` (`prev` used as a Fragment).  `predOfRows` inverts `predToRows`.
+  objects, `predToRows p = (Row.frag p.1, p.2.map Row.gap)`, and `gaps_before_leftover` takes the stored pair as it is (`prev.name`,
+  `prev.strand`, `prev.start`, `prev.end` are attribute reads on a row object: AttributeError on a Gap).  `predOfRows` inverts
+  `predToRows`; `gapsBeforeLeftoverRows` is `gaps_before_leftover` spelled out for an arbitrary stored pair.
 -/
 import AgpTpf.Gen.Imp
 import AgpTpf.Proofs.ImpLeftover
@@ -53,9 +54,10 @@ example :
                                 .frag { name := ['b'], start := 2, stop := 9, strand := -1 }] } (-1)
     = .ok (some (.frag { name := ['a'], start := 1, stop := 5, strand := 1 }, [.gap { length := 7, gapType := ['u'] }])) := by rfl
 
-/-- `gaps_before_leftover`: never raises; the model's rows -/
+/-- `gaps_before_leftover` on what `input_predecessor` stores (`predToRows p = (Row.frag p.1, p.2.map Row.gap)`: the predecessor ROW
+    object and the gap rows): never raises; the model's rows -/
 theorem gaps_before_leftover_is_source (built : Scaffold) (pred : Option (Fragment × List Gap)) (joinGap : Option Gap) :
-    Gen.Imp.BuildAssembly_gaps_before_leftover built (pred.map (fun p => (p.1, p.2.map Row.gap))) joinGap
+    Gen.Imp.BuildAssembly_gaps_before_leftover built (pred.map (fun p => (Row.frag p.1, p.2.map Row.gap))) joinGap
       = .ok (gapsBeforeLeftover joinGap built.rows pred) := by
   unfold Gen.Imp.BuildAssembly_gaps_before_leftover gapsBeforeLeftover
   cases hb : built.rows.isEmpty with
@@ -67,6 +69,7 @@ theorem gaps_before_leftover_is_source (built : Scaffold) (pred : Option (Fragme
       cases hr : built.rows.reverse with
       | nil => simp at hr; simp [hr] at hb
       | cons x r =>
+        simp only [Option.map_some]
         rw [show pyGet built.rows (-(1 : Int)) = .ok x from pyGet_neg_one _ x r hr]
         cases x with
         | gap g => cases joinGap <;> simp [bind, Except.bind, Row.isGap]
@@ -80,26 +83,85 @@ theorem gaps_before_leftover_is_source (built : Scaffold) (pred : Option (Fragme
 example :
     Gen.Imp.BuildAssembly_gaps_before_leftover
       { name := ['s'], rows := [.frag { name := ['a'], start := 1, stop := 5, strand := 1 }] }
-      (some ({ name := ['a'], start := 1, stop := 5, strand := 1 }, [.gap { length := 7, gapType := ['u'] }]))
+      (some (.frag { name := ['a'], start := 1, stop := 5, strand := 1 }, [.gap { length := 7, gapType := ['u'] }]))
       (some { length := 200, gapType := ['s'] })
     = .ok [.gap { length := 7, gapType := ['u'] }] := by rfl
 
 example :
     Gen.Imp.BuildAssembly_gaps_before_leftover
       { name := ['s'], rows := [.frag { name := ['a'], start := 1, stop := 4, strand := 1 }] }
-      (some ({ name := ['a'], start := 1, stop := 5, strand := 1 }, [.gap { length := 7, gapType := ['u'] }]))
+      (some (.frag { name := ['a'], start := 1, stop := 5, strand := 1 }, [.gap { length := 7, gapType := ['u'] }]))
       (some { length := 200, gapType := ['s'] })
     = .ok [.gap { length := 200, gapType := ['s'] }] := by rfl
 
-/-- the two compose: `scffld.input_predecessor = input_predecessor(input_scffld, i)` read back by `gaps_before_leftover`
-    (`srcOfRows`: the stored first row used as a Fragment — it always is one) gives the model's rows for the model's predecessor -/
+/-- `gaps_before_leftover` for ANY stored pair (`prev` any row object, `gaps` any rows) — `gapsBeforeLeftoverRows` of
+    Proofs/ImpLeftover.lean spells the result out: `[]` when nothing is built yet; the default gap when nothing is stored or the last
+    built row is a Gap; when the last built row is a Fragment, `prev.name` is read: AttributeError if `prev` is a Gap, otherwise the
+    stored rows as they are when the end of `prev` is still there, else the default gap -/
+theorem gaps_before_leftover_rows_is_source (built : Scaffold) (pred : Option (Row × List Row)) (joinGap : Option Gap) :
+    Gen.Imp.BuildAssembly_gaps_before_leftover built pred joinGap = gapsBeforeLeftoverRows joinGap built.rows pred := by
+  unfold Gen.Imp.BuildAssembly_gaps_before_leftover gapsBeforeLeftoverRows
+  cases hb : built.rows.isEmpty with
+  | true => simp
+  | false =>
+    cases pred with
+    | none => cases joinGap <;> simp
+    | some q =>
+      obtain ⟨prev, gaps⟩ := q
+      cases hr : built.rows.reverse with
+      | nil => simp at hr; simp [hr] at hb
+      | cons x r =>
+        rw [show pyGet built.rows (-(1 : Int)) = .ok x from pyGet_neg_one _ x r hr]
+        cases x with
+        | gap g => cases joinGap <;> simp [bind, Except.bind, Row.isGap]
+        | frag last =>
+          cases prev with
+          | gap g => simp [bind, Except.bind, Except.map, Row.isGap, PyRt.asFrag]
+          | frag p =>
+            cases joinGap <;>
+            by_cases h1 : last.name = p.name <;> by_cases h2 : last.strand = p.strand <;>
+              by_cases h3 : p.strand = -1 <;>
+              by_cases h4 : last.start = p.start <;> by_cases h5 : last.stop = p.stop <;>
+              simp [bind, Except.bind, Except.map, Row.isGap, PyRt.asFrag, h1, h2, h3, h4, h5] <;> simp_all
+
+/-- the stored predecessor row is a Gap (never produced by `input_predecessor`): AttributeError (`prev.name`) EXACTLY when something is
+    built and the last built row is a Fragment; otherwise the row is never looked at (`[]`, resp. the default gap) -/
+theorem gaps_before_leftover_gap_predecessor (built : Scaffold) (g : Gap) (gaps : List Row) (joinGap : Option Gap) :
+    Gen.Imp.BuildAssembly_gaps_before_leftover built (some (Row.gap g, gaps)) joinGap
+      = match built.rows.reverse with
+        | [] => .ok []
+        | Row.frag _ :: _ => .error .attribute
+        | Row.gap _ :: _ => .ok (joinGap.toList.map Row.gap) := by
+  rw [gaps_before_leftover_rows_is_source]
+  unfold gapsBeforeLeftoverRows
+  cases hr : built.rows.reverse with
+  | nil => simp at hr; simp [hr]
+  | cons x r =>
+    have hb : built.rows.isEmpty = false := by
+      cases h : built.rows with
+      | nil => simp [h] at hr
+      | cons _ _ => rfl
+    cases x <;> cases joinGap <;> simp [hb]
+
+example :
+    Gen.Imp.BuildAssembly_gaps_before_leftover
+      { name := ['s'], rows := [.frag { name := ['a'], start := 1, stop := 4, strand := 1 }] }
+      (some (.gap { length := 7, gapType := ['u'] }, [])) (some { length := 200, gapType := ['s'] })
+    = .error .attribute := by rfl
+
+example :
+    Gen.Imp.BuildAssembly_gaps_before_leftover
+      { name := ['s'], rows := [.frag { name := ['a'], start := 1, stop := 4, strand := 1 }, .gap { length := 3, gapType := ['u'] }] }
+      (some (.gap { length := 7, gapType := ['u'] }, [])) (some { length := 200, gapType := ['s'] })
+    = .ok [.gap { length := 200, gapType := ['s'] }] := by rfl
+
+/-- the two compose: `scffld.input_predecessor = input_predecessor(input_scffld, i)`, handed to `gaps_before_leftover` AS IT IS STORED,
+    gives the model's rows for the model's predecessor; never raises -/
 theorem gaps_before_leftover_of_input_predecessor (sc built : Scaffold) (i : Nat) (joinGap : Option Gap) :
     (Gen.Imp.BuildAssembly_input_predecessor sc (i : Int) >>= fun q =>
-        Gen.Imp.BuildAssembly_gaps_before_leftover built (q.bind srcOfRows) joinGap)
+        Gen.Imp.BuildAssembly_gaps_before_leftover built q joinGap)
       = .ok (gapsBeforeLeftover joinGap built.rows (inputPredecessor sc.rows i)) := by
   rw [input_predecessor_is_source]
-  show Gen.Imp.BuildAssembly_gaps_before_leftover built (((inputPredecessor sc.rows i).map predToRows).bind srcOfRows) joinGap = _
-  rw [bind_srcOfRows]
   exact gaps_before_leftover_is_source built _ joinGap
 
 example :
@@ -109,7 +171,7 @@ example :
       Gen.Imp.BuildAssembly_gaps_before_leftover
         { name := ['t'], rows := [.frag { name := ['c'], start := 1, stop := 3, strand := 1 },
                                   .frag { name := ['a'], start := 1, stop := 4, strand := -1 }] }
-        (q.bind srcOfRows) (some { length := 200, gapType := ['s'] }))
+        q (some { length := 200, gapType := ['s'] }))
     = .ok [.gap { length := 7, gapType := ['u'] }] := by rfl
 
 end AgpTpf.C07
